@@ -113,6 +113,12 @@ def join(a: AV, b: AV) -> AV:
         return b
     if b is None:
         return a
+    # Optional[...] pattern: None joined with an object keeps the object's
+    # facets (uses are guarded by `is None` tests in the code)
+    if a.num == "none" and b.num == "obj":
+        return b.with_(src=a.src | b.src)
+    if b.num == "none" and a.num == "obj":
+        return a.with_(src=a.src | b.src)
     elts = None
     if a.elts is not None and b.elts is not None and \
             len(a.elts) == len(b.elts):
@@ -182,7 +188,13 @@ class Interp:
 
     def __init__(self, prog: Program, fi: FuncInfo, observers=(),
                  args: dict | None = None, lib=None, depth=0,
-                 summaries=None, specialise=None, outer_env=None):
+                 summaries=None, specialise=None, outer_env=None,
+                 world=None):
+        self.world = world
+        if world is not None and summaries is None:
+            summaries = world.summaries
+        if outer_env is None and world is not None and fi.parent is not None:
+            outer_env = world.closures.get(fi.qualname)
         self.prog = prog
         self.fi = fi
         self.mod = prog.modules[fi.module]
@@ -342,8 +354,12 @@ class Interp:
                 return r2 if res is not None else None
             return res
         if isinstance(s, (ast.FunctionDef, ast.AsyncFunctionDef)):
-            env[s.name] = AV(num="obj", cls="func:" + self.fi.qualname + "."
-                             + s.name)
+            q = self.fi.qualname + "." + s.name
+            env[s.name] = AV(num="obj", cls="func:" + q)
+            if self.world is not None:
+                snap = {k: v for k, v in env.items()}
+                self.world.closures[q] = join_env(
+                    self.world.closures.get(q), snap)
             return env
         if isinstance(s, ast.Delete):
             for t in s.targets:
@@ -833,6 +849,8 @@ class Interp:
         if is_method:
             bind[params[0]] = recv if recv is not None and recv.cls else \
                 AV(num="obj", cls=(target.module + "." + target.cls))
+        if self.world is not None and self.depth == 0:
+            self.world.record_call(target, bind)
         sig = (target.qualname, tuple(sorted((k, v) for k, v in
                                              bind.items())))
         try:
@@ -845,7 +863,7 @@ class Interp:
             self.summaries[sig] = TOP      # recursion guard
         sub = Interp(self.prog, target, observers=self.summary_observers(),
                      args=bind, lib=self.lib, depth=self.depth + 1,
-                     summaries=self.summaries)
+                     summaries=self.summaries, world=self.world)
         try:
             r = sub.run()
         except RecursionError:
@@ -858,3 +876,68 @@ class Interp:
         """observers are not propagated into callee summaries by default
         (each function is also analysed on its own as a root)"""
         return []
+
+
+class World:
+    """Context-insensitive interprocedural driver: every function is analysed
+    as a root with its parameters bound to the join of the abstract arguments
+    seen at its call sites in the previous round (callbacks registered by
+    library summaries included); closures see the join of their defining
+    environments.  Rule observers run in the last round only."""
+
+    def __init__(self, prog: Program, lib, modules=None):
+        self.prog = prog
+        self.lib = lib
+        self.summaries = {}
+        self.closures: dict[str, dict] = {}
+        self.param_env: dict[str, dict] = {}
+        self._next: dict[str, dict] = {}
+        self.modules = modules
+
+    def record_call(self, target: FuncInfo, bind: dict):
+        d = self._next.setdefault(target.qualname, {})
+        for k, v in bind.items():
+            if v.is_top and not v.src:
+                continue          # an unknown caller carries no information
+            d[k] = join(d[k], v) if k in d else v
+
+    def bind_callback(self, qualname, param_index, av):
+        """library summary hook: a repo function handed to a library is
+        called back with `av` as its param_index-th parameter"""
+        fi = self.prog.functions.get(qualname)
+        if fi is None:
+            return
+        ps = fi.params
+        if param_index < len(ps):
+            self.record_call(fi, {ps[param_index]: av})
+
+    def roots(self):
+        for q, fi in self.prog.functions.items():
+            if self.modules is None or fi.module in self.modules:
+                yield fi
+
+    def run(self, observers=(), rounds=12):
+        """iterate until the call-site parameter environment is stable (at
+        most `rounds` times), then one more pass with the rule observers"""
+        self.rounds_used = 0
+        for r in range(rounds):
+            self._pass([])
+            self.rounds_used += 1
+            stable = self._next == self.param_env
+            self.param_env = self._next
+            if stable:
+                break
+        self._pass(list(observers))
+        self.param_env = self._next
+
+    def _pass(self, observers):
+        self._next = {}
+        self.summaries.clear()
+        for fi in self.roots():
+            it = Interp(self.prog, fi, observers=observers,
+                        args=self.param_env.get(fi.qualname),
+                        lib=self.lib, world=self)
+            try:
+                it.run()
+            except RecursionError:
+                pass
